@@ -292,6 +292,9 @@ def direct_real(c, o):
     if o.get("error"):
         return [("C01:raised:real-run", o["error"] + " " + o.get("tb", "")[-300:])]
     n = c["nlive"]
+    for b in o.get("bad_checkpoints", []):
+        bad.append(("C01:checkpoint-torn", f"real run ({c['proposal']}): the checkpoint written at iteration {b['iteration']} does not satisfy "
+                    f"the live-set invariant: {b['problems']}"))
     if c["kind"] == "resumed" and len(o.get("resumed_at", [])) != len(c["resume_after"]):
         bad.append(("C01:resume-did-not-happen", f"resumed at {o.get('resumed_at')} for the requested stops {c['resume_after']}"))
     for e in o["events"]:
@@ -478,7 +481,7 @@ def real_cases(chk):
              "variant": "nan-wide", "max_iteration": 150},
             # checkpoint -> death -> FlowSampler(resume=True), twice, across the switch to the flow proposal
             {"kind": "resumed", "proposal": "flow", "nlive": 40, "seed": 16 + chk.seed, "stopping": 2.0, "max_epochs": 10,
-             "maximum_uninformed": 40, "resume_after": [30, 90], "max_iteration": 160},
+             "maximum_uninformed": 40, "resume_after": [30, 90], "max_iteration": 160, "checkpoint_interval": 1},
         ]
     out = []
     for i, (prop, nl) in enumerate([("analytic", 10), ("analytic", 100), ("rejection", 50), ("flow", 50), ("flow", 100),
@@ -548,6 +551,7 @@ def run(chk):
             chk.nontriv(("real", c["proposal"], c["nlive"], c["seed"]))
             if c["kind"] == "resumed":
                 chk.count("real-run resumes", len(o.get("resumed_at", [])))
+                chk.count("real-run checkpoints inspected", o.get("checkpoints", 0))
         for key, what in direct_real(c, o):
             chk.fail(key, what, {"case": c, "failure_key": key})
     # ---- correspondence inside Coq -----------------------------------------------------------
